@@ -318,6 +318,7 @@ async fn set_i32(s: &Socket, id: i32, v: i32) {
 }
 
 struct Pair {
+  ep: String,
   ctx: Context,
   ctx2: Option<Context>,
   sender: Socket,
@@ -372,7 +373,7 @@ async fn make_pair(pat: &str, tr: &str, sopts: &Value, ropts: &Value) -> Result<
     return Err("bind failed".into());
   }
   sender.connect(&ep).await.map_err(|e| format!("connect: {e}"))?;
-  Ok(Pair { ctx, ctx2, sender, receiver, is_router, is_req })
+  Ok(Pair { ep, ctx, ctx2, sender, receiver, is_router, is_req })
 }
 
 fn filter_opts(o: &Value) -> Value {
@@ -664,6 +665,27 @@ async fn recv_idle(c: &Value) -> Value {
     })
   });
 
+  // optional churn: while the recv is pending, further (silent) peers of the sender's type connect every `churn_ms`
+  let churner = opt_u64(c, "churn_ms").map(|ms| {
+    let n = opt_u64(c, "churn_n").unwrap_or(10);
+    let ctx = p.ctx.clone();
+    let ep = p.ep.clone();
+    let sty = pat.split('_').next().unwrap_or("PUSH").to_string();
+    tokio::spawn(async move {
+      let mut keep: Vec<Socket> = Vec::new();
+      for _ in 0..n {
+        tokio::time::sleep(Duration::from_millis(ms)).await;
+        if let Ok(s) = ctx.socket(stype_of(&sty)) {
+          let _ = s.connect(&ep).await;
+          keep.push(s);
+        }
+      }
+      tokio::time::sleep(Duration::from_millis(300)).await;
+      for s in keep {
+        let _ = tokio::time::timeout(Duration::from_secs(1), s.close()).await;
+      }
+    })
+  });
   let t0 = Instant::now();
   let rcv_main = p.receiver.clone();
   let fut = rcv_main.recv_multipart();
@@ -706,6 +728,9 @@ async fn recv_idle(c: &Value) -> Value {
     }
   };
   if let Some(h) = pusher {
+    let _ = h.await;
+  }
+  if let Some(h) = churner {
     let _ = h.await;
   }
   // nothing was lost by the refused recv: two further messages arrive, in order, and nothing else
